@@ -977,6 +977,27 @@ def shrink_world(world, seed, fails):
     return w
 
 
+def duplicate_answers(decisions):
+    """(number of scheduler answers that decide one task more than once, number of those in which a placed PLACE_TASK
+    decision follows an earlier placed one of the same task)."""
+    ndup = nretime = 0
+    for d in decisions:
+        seen, dup, retime = {}, False, False
+        for p in d.get("placements", []):
+            if p.get("kind") not in ("place", "cancel"):
+                continue
+            k = (p.get("g"), p.get("t"))
+            placed = p["kind"] == "place" and p.get("pool") is not None
+            if k in seen:
+                dup = True
+                if placed and seen[k]:
+                    retime = True
+            seen[k] = seen.get(k, False) or placed
+        ndup += dup
+        nretime += retime
+    return ndup, nretime
+
+
 def run_suite(chk: common.Check, prop: str, n_quick=400, n_thorough=4000, streams=("regular",), extra_specs=None):
     from harness.impl import sim_impl
 
@@ -1000,6 +1021,14 @@ def run_suite(chk: common.Check, prop: str, n_quick=400, n_thorough=4000, stream
         chk.count(f"policy:{world['policy']['name']}")
         chk.count(f"outcome:{obs['err']}")
         chk.count(f"stream:{world['stream']}")
+        # scheduler answers that decide the same task more than once (second decision placed: the cached
+        # TASK_PLACEMENT event is re-timed while it is still pending in `__handle_scheduler_finish`)
+        ndup, nretime = duplicate_answers(r["case"].get("decisions", []))
+        if ndup:
+            chk.count("answers:task-decided-twice", ndup)
+            chk.count("runs:task-decided-twice")
+        if nretime:
+            chk.count("answers:pending-placement-retimed", nretime)
         for rr in obs["rows"]:
             if len(rr) > 1:
                 chk.count(f"row:{rr[1]}")
